@@ -287,9 +287,15 @@ def sigFromPy(pobj):
         if pobj == []:
             return 'av'
         vtype = type(pobj[0])
+        vsig = getattr(pobj[0], 'dbusSignature', None)
         same = True
         for v in pobj[1:]:
-            if not isinstance(v, vtype):
+            # an explicitly typed value is only "the same" as the first
+            # element if it declares the same DBus type
+            if (
+                not isinstance(v, vtype)
+                or getattr(v, 'dbusSignature', None) != vsig
+            ):
                 same = False
         if same:
             return 'a' + sigFromPy(pobj[0])
@@ -314,7 +320,11 @@ def sigFromPy(pobj):
             if vtype is None:
                 vtype = type(v)
                 first = v
-            elif not isinstance(v, vtype):
+            elif (
+                not isinstance(v, vtype)
+                or getattr(v, 'dbusSignature', None)
+                != getattr(first, 'dbusSignature', None)
+            ):
                 same = False
         if same:
             return 'a{' + sigFromPy(k) + sigFromPy(first) + '}'
